@@ -794,3 +794,152 @@ Proof.
   apply NoDup_filter, NDo.
 Qed.
 End T3.
+
+(* ------------------------------------------------------------------ *)
+(* (T4) the whole tree, executed with the einsum-vs-tensordot choice of
+   extract_contractions at every node (prefer_einsum arbitrary): same arrays as
+   the pure einsum path, hence the mathematical einsum in the declared order.  *)
+Lemma einsum2_cong n bg li ri pi (A A' B B' : ptensor) :
+  (forall pos, length pos = length li -> A pos = A' pos) ->
+  (forall pos, length pos = length ri -> B pos = B' pos) ->
+  forall pos, einsum2 n bg li ri pi A B pos = einsum2 n bg li ri pi A' B' pos.
+Proof.
+  intros HA HB pos. unfold einsum2. apply sum_over_ext. intros e'.
+  rewrite HA, HB by apply map_length. reflexivity.
+Qed.
+
+Lemma sarr_eq_trans X Y Z : sarr_eq X Y -> sarr_eq Y Z -> sarr_eq X Z.
+Proof.
+  intros [H1 H2] [H3 H4]. split; [congruence|]. intros pos Hp. rewrite H2 by exact Hp. apply H4. rewrite <- H1. exact Hp.
+Qed.
+
+Section T4.
+Variable n : net.
+Variable sl : list slinfo.
+Variable arr : nat -> ptensor.
+Variable e0 : env.
+Variable pe : bool.                      (* prefer_einsum *)
+Notation dim := (dim n).
+
+(* what the instruction(s) of node_instr store for the node, given the operands *)
+Definition node_exec (isroot : bool) (l r : tree) (L R : sarr) : sarr :=
+  let t := Node l r in
+  if pe || negb (can_dot n sl isroot t)
+  then (map dim (inds n sl isroot t),
+        einsum2 n e0 (inds_sub n sl l) (inds_sub n sl r) (inds n sl isroot t) (snd L) (snd R))
+  else let X := tdot L R (fst (tensordot_axes n sl t)) (snd (tensordot_axes n sl t)) in
+       match tensordot_perm n sl isroot t with Some pm => transpose X pm | None => X end.
+
+Lemma node_instr_exec isroot l r (tm : temps) :
+  fold_left (exec_instr n e0) (node_instr n sl pe (isroot, Node l r)) tm
+  = tset (leaves (Node l r))
+         (node_exec isroot l r (tget (leaves l) tm) (tget (leaves r) tm))
+         (tdel (leaves r) (tdel (leaves l) tm)).
+Proof.
+  unfold node_instr, node_exec. cbn [snd fst].
+  destruct (pe || negb (can_dot n sl isroot (Node l r))); reflexivity.
+Qed.
+
+Lemma node_exec_is_einsum isroot l r (L R : sarr) :
+  inrange n (leaves l ++ leaves r) ->
+  NoDup (inds n sl isroot (Node l r)) ->
+  fst L = map dim (inds_sub n sl l) -> fst R = map dim (inds_sub n sl r) ->
+  sarr_eq (node_exec isroot l r L R)
+          (map dim (inds n sl isroot (Node l r)),
+           einsum2 n e0 (inds_sub n sl l) (inds_sub n sl r) (inds n sl isroot (Node l r)) (snd L) (snd R)).
+Proof.
+  intros HR NDp HsL HsR. unfold node_exec.
+  destruct (can_dot n sl isroot (Node l r)) eqn:Hc; destruct pe; cbn [orb negb];
+    try (split; [reflexivity|intros; reflexivity]).
+  pose proof (inrange_app_l n _ _ HR) as HL. pose proof (inrange_app_r n _ _ HR) as HRr.
+  destruct (inds_sub_spec n sl l HL) as [NDl _]. destruct (inds_sub_spec n sl r HRr) as [NDr _].
+  pose proof (can_dot_inds n sl isroot l r HR Hc) as Hpi.
+  cbn [tensordot_axes]. rewrite td_perm_is_program_perm.
+  assert (EL : L = (map dim (inds_sub n sl l), snd L)) by (rewrite <- HsL; apply surjective_pairing).
+  assert (ER : R = (map dim (inds_sub n sl r), snd R)) by (rewrite <- HsR; apply surjective_pairing).
+  assert (Et : forall la ra, tdot L R la ra
+             = tdot (map dim (inds_sub n sl l), snd L) (map dim (inds_sub n sl r), snd R) la ra)
+    by (intros; rewrite <- EL, <- ER; reflexivity).
+  rewrite !Et.
+  destruct (tdot_transpose_is_einsum n e0 _ _ _ (snd L) (snd R) NDl NDr NDp Hpi) as [Hs Hv].
+  cbv zeta in Hs, Hv. split.
+  - cbn [fst]. exact Hs.
+  - intros pos Hp. rewrite Hs, map_length in Hp. cbn [snd]. apply Hv, Hp.
+Qed.
+
+(* a leaf as the interpreter holds it after the pre-processing instructions *)
+Definition leaf_sarr (k : nat) : sarr :=
+  match leaf_preproc n sl k with
+  | Some (term, kept) => (map dim kept, einsum1 n e0 term kept (sliced_arr n sl arr e0 k))
+  | None => (map dim (term_sl n sl k), sliced_arr n sl arr e0 k)
+  end.
+
+Lemma leaf_sarr_spec k :
+  leaf_sarr k = (map dim (inds_sub n sl (Leaf k)), leaf_tensor n sl arr e0 k).
+Proof.
+  unfold leaf_sarr, leaf_tensor, leaf_preproc. cbn [inds_sub].
+  destruct (leaf_simplifiable n sl k) eqn:Es; [reflexivity|].
+  unfold leaf_legs. rewrite Es.
+  unfold leaf_simplifiable in Es. apply orb_false_iff in Es. destruct Es as [Elen _].
+  apply negb_false_iff, Nat.eqb_eq in Elen.
+  rewrite (legs_of_term_keys_nodup _ Elen). reflexivity.
+Qed.
+
+Fixpoint run_sub_x (t : tree) : sarr :=
+  match t with
+  | Leaf k => leaf_sarr k
+  | Node l r => node_exec false l r (run_sub_x l) (run_sub_x r)
+  end.
+Definition run_root_x (t : tree) : sarr :=
+  match t with
+  | Leaf k => leaf_sarr k
+  | Node l r => node_exec true l r (run_sub_x l) (run_sub_x r)
+  end.
+
+Theorem run_sub_x_eq t : inrange n (leaves t) ->
+  sarr_eq (run_sub_x t) (map dim (inds_sub n sl t), run_sub n sl arr e0 t).
+Proof.
+  induction t as [k|l IHl r IHr]; intros HR.
+  - cbn [run_sub_x run_sub]. rewrite leaf_sarr_spec. split; [reflexivity|intros; reflexivity].
+  - cbn [leaves] in HR.
+    pose proof (inrange_app_l n _ _ HR) as HL. pose proof (inrange_app_r n _ _ HR) as HRr.
+    destruct (IHl HL) as [HsL HvL]. destruct (IHr HRr) as [HsR HvR]. cbn [fst snd] in HsL, HvL, HsR, HvR.
+    cbn [run_sub_x run_sub].
+    eapply sarr_eq_trans.
+    + apply (node_exec_is_einsum false l r _ _ HR); [|exact HsL|exact HsR].
+      apply (inds_sub_spec n sl (Node l r)). exact HR.
+    + split; [reflexivity|]. intros pos _. cbn [snd inds]. apply einsum2_cong.
+      * intros p Hp. apply HvL. rewrite HsL, map_length. exact Hp.
+      * intros p Hp. apply HvR. rewrite HsR, map_length. exact Hp.
+Qed.
+
+Theorem run_root_x_eq l r : inrange n (leaves l ++ leaves r) -> NoDup (output n) ->
+  sarr_eq (run_root_x (Node l r)) (map dim (out_inds n sl), run_root n sl arr e0 (Node l r)).
+Proof.
+  intros HR NDo.
+  pose proof (inrange_app_l n _ _ HR) as HL. pose proof (inrange_app_r n _ _ HR) as HRr.
+  destruct (run_sub_x_eq l HL) as [HsL HvL]. destruct (run_sub_x_eq r HRr) as [HsR HvR].
+  cbn [fst snd] in HsL, HvL, HsR, HvR.
+  cbn [run_root_x run_root].
+  eapply sarr_eq_trans.
+  - apply (node_exec_is_einsum true l r _ _ HR); [|exact HsL|exact HsR].
+    cbn [inds]. change (lkeys (root_legs n sl)) with (out_inds n sl). rewrite out_inds_eq.
+    apply NoDup_filter, NDo.
+  - split; [reflexivity|]. intros pos _. cbn [snd inds]. apply einsum2_cong.
+    + intros p Hp. apply HvL. rewrite HsL, map_length. exact Hp.
+    + intros p Hp. apply HvR. rewrite HsR, map_length. exact Hp.
+Qed.
+
+(* value AND axis order of the mixed tensordot/einsum execution *)
+Theorem run_root_x_correct l r : wf_net n -> full_tree n (Node l r) ->
+  fst (run_root_x (Node l r)) = map dim (out_inds n sl) /\
+  forall e, agree_removed sl e0 e ->
+    snd (run_root_x (Node l r)) (map e (out_inds n sl)) = einsum_spec n sl arr e.
+Proof.
+  intros WF HF. pose proof (full_tree_inrange n _ HF) as HR. cbn [leaves] in HR.
+  destruct (run_root_x_eq l r HR (proj1 WF)) as [Hs Hv]. cbn [fst snd] in Hs, Hv.
+  split; [exact Hs|]. intros e Ha.
+  rewrite Hv by (rewrite Hs, !map_length; reflexivity).
+  apply run_root_correct; assumption.
+Qed.
+End T4.
